@@ -593,6 +593,10 @@ def read_file_routing():
     from sharepoint2text.parsing.exceptions import ExtractionFileFormatNotSupportedError
     r = router()
     names = ["noext", "report.", ".pdf", ".hidden", "item-01F3", "x.unknownext", "x.bin", "x.txt", "X.PDF", "y.rtf", "z.7z", "a.tar.gz", "b.docx", "c.weird"]
+    # a routable name wrapped in something the router does not know (backup / partial-download / numbered copies, trailing blank or
+    # dot, a routable-looking stem) and extension spellings that only a different caseless mapping would accept
+    names += ["report.pdf.bak", "notes.txt.1", "deck.pptx.download", "scan.pdf~", "page.html.part", "memo.docx ", "SHEET.XLSX.", "pdf", "archive.zip.tmp"]
+    names += [f"u.{v}" for e in ("pdf", "xls", "msg") for v in _fold_variants(e)]
     for cname, setup in configs():
         if cname in ("mime-table", "mime-variants"):
             continue
